@@ -2,9 +2,14 @@
 
 Four streams, all seeded:
   A  real Executor.recv_loop / healthcheck / terminate (object.__new__, fake child processes, recording
-     collaborators) over generated histories of message batches and child faults; compared call by call
-     with Net.Executor.apply_ev inside Coq; direct oracle: a dead child is reported + torn down by the next
+     collaborators, fake clock) over generated histories of message batches and child faults; compared call by
+     call with Net.Executor.apply_ev inside Coq; direct oracle: a dead child is reported + torn down by the next
      iteration, a terminated executor has no live child, exactly one Exit/Failure report.
+     The teardown is TIMED: workers are idle, busy for 1 ms .. 1 h, stuck for ever or unreachable when it
+     begins; the fake Process.join treats its timeout as CPython does (None = for ever, too large = OverflowError);
+     the monotonic / wall / perf clocks have unrelated epochs (uptime 0 .. 460 days).  Oracle: the teardown comes
+     back, within the period the real-process stream grants, and nobody who is not about to leave is left alive.
+     Every join/kill with its timeout is compared with Net.Teardown.reap_t (check_teardown).
   B  real entrypoint.execute_sequence + runner.run over generated task sequences (ok / raise / sys.exit,
      single and generator outputs); compared with Net.Executor.execute_sequence; oracle: no silent failure.
   C  real Bridge.recv_events / Bridge.shutdown over scripted batches; compared with Net.Executor.recv_events.
@@ -28,7 +33,8 @@ import c05_faults as F
 TRUSTED = [
     "C05 runtime half is NOT a theorem: process table, /dev/shm, signals, zmq linger are observed by bounded fault "
     "enumeration on real processes (harness/c05_faults.py), with deadlines and a serial re-run of any suspicious outcome",
-    "fake child processes / listener / sender / shm client used to drive the real Executor and Bridge methods in-process",
+    "fake child processes / listener / sender / shm client used to drive the real Executor and Bridge methods in-process; "
+    "the `time` module seen by cascade.executor.executor is replaced by views of one fake clock",
 ]
 ASSUMPTIONS = [
     "delivery: what an executor sends with to_controller is contained in a batch the controller reads (C06's property); "
@@ -37,13 +43,17 @@ ASSUMPTIONS = [
     "to_controller / callback / logging do not raise inside the executor's exception handler",
     "the scheduler part of controller.run is abstracted to `which requested outputs have a value`; ReliableSender.maybe_retry "
     "and the heartbeat bookkeeping of Bridge.recv_events are not modelled",
-    "a worker process is Alive (answers WorkerShutdown), Stuck (never reads again) or Exited; join(grace) of a Stuck one times out",
+    "a worker process has exited, or leaves a given time after it was asked to (0 = idle, longer = inside a task), or never reads "
+    "another message; Process.join(timeout) as in CPython 3.12 (None waits for ever, <= 0 polls, more than INT_MAX ms raises "
+    "OverflowError, a known exit code returns at once); time passes only while the executor waits (Net/Teardown.v); sending the "
+    "shutdown requests takes no time; Net/Executor.v's `Stuck` = needs longer than the grace period (C05_terminate_is_timed)",
+    "the monotonic and the wall clock advance at the same rate during a teardown (no clock step), their epochs are unrelated",
     "SIGTERM to the shm server runs its handler (segments unlinked), SIGKILL does not; modelled by EvShmDies Term/Kill",
 ]
 SIG_SHM_KILL = "shm-server-sigkill-leaks-segments"
 
 HEADER = """From Coq Require Import List ZArith Bool Arith String.
-From EKW Require Import Net.Executor Net.ExecutorCheck.
+From EKW Require Import Net.Executor Net.Teardown Net.ExecutorCheck.
 Import ListNotations."""
 
 
@@ -52,75 +62,226 @@ class _Stop(BaseException):
     pass
 
 
+GRACE_MS = 5000            # cascade.executor.executor.worker_shutdown_grace_s, in the model's unit (Net/Teardown.grace)
+BUSY_MS = [1, 100, 2000, 4999, 5000, 5001, 20000, 3600000]
+MONO0_MS = [0, 500, 1234500, 1234500, 2600000000, 40000000000]      # uptimes from "just booted" to beyond INT_MAX ms
+WALL0_MS = [1790000000000, 1790000000000, 1790000000000, 1000000000000, 100000]
+
+
+def _gen_msgs(rng, n, pub):
+    ms = []
+    for _ in range(rng.choice([0, 0, 1, 1, 2, 3, 4])):
+        q = rng.random()
+        if q < 0.25:
+            ms.append(["seq", rng.choice(list(range(n)) + ([9] if rng.random() < 0.1 else []))])
+        elif q < 0.4:
+            ms.append(["ack", rng.randrange(5)])
+        elif q < 0.6:
+            d = rng.randrange(6)
+            pub.append(d)
+            ms.append(["pub", d])
+        elif q < 0.75:
+            ms.append(["purge", rng.choice(pub) if pub and rng.random() < 0.8 else rng.randrange(6)])
+        elif q < 0.85:
+            ms.append(["tfail", rng.randrange(n), rng.randrange(4)])
+        elif q < 0.9:
+            ms.append(["xfail"])
+        elif q < 0.96:
+            ms.append(["shutdown"])
+        else:
+            ms.append(["other"])
+    return ms
+
+
+def _gen_worker_trouble(rng, n):
+    """a worker that will not (or not at once) leave when asked to"""
+    r = rng.random()
+    if r < 0.45:
+        return ["wstuck", rng.randrange(n)]
+    if r < 0.9:
+        return ["wbusy", rng.randrange(n), rng.choice(BUSY_MS)]
+    return ["wdeaf", rng.randrange(n)]
+
+
 def gen_exec_case(rng):
-    n = rng.choice([1, 2, 2, 3])
+    n = rng.choice([1, 2, 2, 3, 4])
     ns = [w for w in range(n) if rng.random() < 0.04]
-    k = rng.randint(2, 7)
     evs = []
     pub = []
-    for _ in range(k):
+    mono0 = rng.choice(MONO0_MS)
+    wall0 = mono0 + 3 if rng.random() < 0.05 else rng.choice(WALL0_MS)
+    case = {"n": n, "ns": ns, "evs": evs, "mono0": mono0, "wall0": wall0, "shm_race": rng.random() < 0.05}
+    if rng.random() < 0.35:
+        # teardown-focused: some workers are busy / stuck / unreachable, then something ends the executor
+        for _ in range(rng.randint(0, 2)):
+            evs.append(["batch", _gen_msgs(rng, n, pub), False])
+        for _ in range(rng.randint(1, n + 1)):
+            evs.append(_gen_worker_trouble(rng, n))
+        r = rng.random()
+        if r < 0.4:
+            evs.append(["batch", _gen_msgs(rng, n, pub)[:2] + [["shutdown"]], False])
+        elif r < 0.6:
+            evs += [["wdies", rng.randrange(n), rng.choice([0, 1, -9])], ["batch", _gen_msgs(rng, n, pub), False]]
+        elif r < 0.75:
+            evs += [["shm", rng.choice(["term", "kill", 1])], ["batch", [], False]]
+        elif r < 0.9:
+            evs += [["ds", rng.choice([0, -9])], ["batch", [], False]]
+        else:
+            evs.append(["batch", [["other"]], False])
+        if rng.random() < 0.3:
+            evs.append(["batch", _gen_msgs(rng, n, pub), False])
+        return case
+    for _ in range(rng.randint(2, 7)):
         r = rng.random()
         if r < 0.55:
-            ms = []
-            for _ in range(rng.choice([0, 0, 1, 1, 2, 3, 4])):
-                q = rng.random()
-                if q < 0.25:
-                    ms.append(["seq", rng.choice(list(range(n)) + ([9] if rng.random() < 0.1 else []))])
-                elif q < 0.4:
-                    ms.append(["ack", rng.randrange(5)])
-                elif q < 0.6:
-                    d = rng.randrange(6)
-                    pub.append(d)
-                    ms.append(["pub", d])
-                elif q < 0.75:
-                    ms.append(["purge", rng.choice(pub) if pub and rng.random() < 0.8 else rng.randrange(6)])
-                elif q < 0.85:
-                    ms.append(["tfail", rng.randrange(n), rng.randrange(4)])
-                elif q < 0.9:
-                    ms.append(["xfail"])
-                elif q < 0.96:
-                    ms.append(["shutdown"])
-                else:
-                    ms.append(["other"])
-            evs.append(["batch", ms, rng.random() < 0.25])
-        elif r < 0.75:
+            evs.append(["batch", _gen_msgs(rng, n, pub), rng.random() < 0.25])
+        elif r < 0.72:
             evs.append(["wdies", rng.randrange(n + 1), rng.choice([0, 0, 1, 3, -9, -15])])
         elif r < 0.82:
-            evs.append(["wstuck", rng.randrange(n)])
+            evs.append(_gen_worker_trouble(rng, n))
         elif r < 0.91:
             evs.append(["shm", rng.choice(["term", "kill", 0, 1])])
         else:
             evs.append(["ds", rng.choice([0, 1, -9])])
     if rng.random() < 0.7:
         evs.append(["batch", [], False])
-    return {"n": n, "ns": ns, "evs": evs}
+    return case
+
+
+class _Hang(BaseException):
+    """the call would never return on real processes"""
+
+
+class FakeClock:
+    """Integer milliseconds. Only waiting (join with a timeout, sleep) makes time pass."""
+
+    def __init__(self, mono0, wall0):
+        self.now, self.mono0, self.wall0, self.perf0 = 0, mono0, wall0, 77250
+
+
+class FakeTime:
+    """Stands in for the `time` module inside cascade.executor.executor: every clock the module can read
+    is a view of one FakeClock, each with its own epoch (as on a real machine)."""
+
+    def __init__(self, clock):
+        import time as real
+        self._c, self._real = clock, real
+
+    def monotonic(self):
+        return (self._c.mono0 + self._c.now) / 1000.0
+
+    def time(self):
+        return (self._c.wall0 + self._c.now) / 1000.0
+
+    def perf_counter(self):
+        return (self._c.perf0 + self._c.now) / 1000.0
+
+    def monotonic_ns(self):
+        return (self._c.mono0 + self._c.now) * 10 ** 6
+
+    def time_ns(self):
+        return (self._c.wall0 + self._c.now) * 10 ** 6
+
+    def perf_counter_ns(self):
+        return (self._c.perf0 + self._c.now) * 10 ** 6
+
+    def sleep(self, s):
+        if s > 10 ** 7:
+            raise _Hang(f"sleep({s})")
+        self._c.now += max(0, round(s * 1000))
+
+    def __getattr__(self, name):
+        return getattr(self._real, name)
+
+
+CLOCK_FUNCS = ["monotonic", "time", "perf_counter", "monotonic_ns", "time_ns", "perf_counter_ns", "sleep"]
+
+
+def poll_timeout_ms(timeout):
+    """What CPython does with Process.join(timeout) of a live process (Popen.wait -> connection.wait ->
+    PollSelector.select -> poll): returns the milliseconds waited at most, None = for ever; raises like CPython."""
+    import math
+    if timeout is None:
+        return None
+    if timeout <= 0:
+        return 0
+    ms = math.ceil(timeout * 1e3)          # ValueError for nan, OverflowError for inf
+    if ms > 2 ** 31 - 1:
+        raise OverflowError("timeout is too large")
+    return max(0, round(timeout * 1000))
 
 
 def drive_exec(case):
-    """Run the real Executor methods over the history; returns (per-event acts, final, oracle problems)."""
+    """Run the real Executor methods over the history, under a fake clock.
+    Returns (per-event acts, final, oracle problems, teardown observation | None)."""
+    import time as real_time
+
     import cascade.executor.executor as ex
     from cascade.executor import msg as M
     from cascade.low.core import DatasetId, WorkerId
 
     host = "h0"
     cur: list = []
+    joins: list = []
+    clock = FakeClock(int(case.get("mono0", 1234500)), int(case.get("wall0", 1790000000000)))
+    ftime = FakeTime(clock)
 
     class Proc:
         def __init__(self, role, idx=None):
             self.role, self.idx = role, idx
-            self.exitcode, self.pid, self.alive, self.stuck, self.asked = None, 4242, True, False, False
+            self._exitcode, self.pid, self.alive, self.stuck, self.asked = None, 4242, True, False, False
+            self.deaf, self.leave, self.asked_at = False, 0, None
+
+        def _settle(self):
+            # a worker that was asked to leave does so when its time has come, whether somebody waits for it or not
+            if (self.alive and self.role == "w" and self.asked and not self.stuck and not self.deaf
+                    and clock.now >= self.asked_at + self.leave):
+                self.alive, self._exitcode = False, 0
+
+        @property
+        def exitcode(self):
+            self._settle()
+            return self._exitcode
+
+        @exitcode.setter
+        def exitcode(self, v):
+            self._exitcode = v
 
         def join(self, timeout=None):
-            if self.alive and not self.stuck and (self.role != "shm" or self.asked) and self.role != "ds":
-                if self.role == "w" and not self.asked:
-                    return
+            # NOTE no _settle here: a process that has exited but was not polled yet goes through the timeout handling too
+            if not self.alive:
+                if self.role == "w":
+                    joins.append(("joindead", self.idx))
+                return                          # exit code already known: returns at once, whatever the timeout
+            if self.role == "w":
+                try:
+                    t = None if timeout is None else int(max(-1, min(2 ** 62, round(timeout * 1000))))
+                except (OverflowError, ValueError):
+                    t = 2 ** 62
+                joins.append(("join", self.idx, t))
+            ms = poll_timeout_ms(timeout)       # raises what CPython raises for a timeout poll(2) cannot take
+            leaves_at = None
+            if self.role == "w" and self.asked and not self.stuck and not self.deaf:
+                leaves_at = self.asked_at + self.leave
+            elif self.role == "shm" and self.asked:
+                leaves_at = clock.now
+            if leaves_at is not None and (ms is None or leaves_at <= clock.now + ms):
+                clock.now = max(clock.now, leaves_at)
                 self.alive, self.exitcode = False, 0
+            elif ms is None:
+                raise _Hang(f"join() without timeout of the live {self.role}{'' if self.idx is None else self.idx} which is not going to exit")
+            else:
+                clock.now += ms
 
         def is_alive(self):
+            self._settle()
             return self.alive
 
         def kill(self):
+            self._settle()
             cur.append(("KillWorker", self.idx) if self.role == "w" else ("KillDs",) if self.role == "ds" else ("KillShm",))
+            if self.role == "w":
+                joins.append(("kill", self.idx))
             self.alive, self.exitcode = False, -9
 
         def die(self, code):
@@ -142,10 +303,14 @@ def drive_exec(case):
             cur.append(("ToData", int(m.ds.output)))
             return
         w = addr2w[address]
+        p = procs[wids[w]]
         if isinstance(m, M.WorkerShutdown):
             cur.append(("ToWorker", w, "WShutdown"))
-            if procs[wids[w]] is not None:
-                procs[wids[w]].asked = True
+            if p is not None:
+                if p.deaf:
+                    raise OSError("injected: the worker's socket cannot be reached")
+                if not p.asked:
+                    p.asked, p.asked_at = True, clock.now
         elif isinstance(m, M.TaskSequence):
             cur.append(("ToWorker", w, "WSeq"))
         elif isinstance(m, M.DatasetPurge):
@@ -193,6 +358,10 @@ def drive_exec(case):
         @staticmethod
         def shutdown():
             cur.append(("ShmShutdown",))
+            if case.get("shm_race") and shm.alive:
+                # the server died between the is_alive() test and the request
+                shm.alive, shm.exitcode = False, -9
+                raise ConnectionRefusedError(111, "injected: shm server gone")
             shm.asked = True
 
     batch = [None]
@@ -230,12 +399,36 @@ def drive_exec(case):
             return M.ExecutorShutdown()
         return M.WorkerReady(worker=wids[0])
 
-    saved = (ex.callback, ex.shm_client, ex.logger.disabled)
+    # every clock the module can read becomes a view of the fake clock (the module object, and names
+    # it may have imported from it)
+    saved = {"callback": ex.callback, "shm_client": ex.shm_client}
+    for name, val in list(vars(ex).items()):
+        if val is real_time:
+            saved[name] = val
+        else:
+            for fn in CLOCK_FUNCS:
+                if val is getattr(real_time, fn):
+                    saved[name] = val
+    was_disabled = ex.logger.disabled
     ex.callback, ex.shm_client, ex.logger.disabled = fake_callback, ShmClient, True
-    obs, problems = [], []
+    for name, val in saved.items():
+        if val is real_time:
+            setattr(ex, name, ftime)
+        elif name not in ("callback", "shm_client"):
+            setattr(ex, name, getattr(ftime, next(fn for fn in CLOCK_FUNCS if val is getattr(real_time, fn))))
+    obs, problems, teardown, crashes = [], [], None, []
 
     def children():
         return [p for p in procs.values()] + [shm, ds]
+
+    def tstat(p):
+        if p is None:
+            return ["notstarted"]
+        if not p.alive:
+            return ["exited", p.exitcode]
+        if p.stuck or p.deaf:
+            return ["never"]
+        return ["leaves", p.leave]
 
     try:
         for i, e in enumerate(case["evs"]):
@@ -245,15 +438,42 @@ def drive_exec(case):
                 dead = any(p is None or p.exitcode is not None for p in children())
                 hb[0] = bool(e[2])
                 batch[0] = [mk(m) for m in e[1]]
+                snapshot = [[w, tstat(p)] for w, p in enumerate(procs.values())]
+                t_before, mono_before = clock.now, clock.mono0 + clock.now
+                del joins[:]
+                hang = None
                 try:
                     E.recv_loop()
                 except _Stop:
                     pass
+                except _Hang as h:
+                    hang = str(h)
+                except Exception as x:
+                    # an exception that escapes recv_loop ends the executor process; what then still runs is the atexit
+                    # hook registered by the constructor, ie terminate (a no-op if a teardown had begun)
+                    crashes.append(f"event {i}: {x!r}")
+                    try:
+                        E.terminate()
+                    except _Hang as h:
+                        hang = str(h)
+                    except Exception as x2:
+                        crashes.append(f"event {i}, atexit: {x2!r}")
                 batch[0] = None
+                if not was_term and E.terminating:
+                    teardown = {"event": i, "t0": t_before, "mono": mono_before, "workers": snapshot, "calls": [list(j) for j in joins],
+                                "elapsed": None if hang else clock.now - t_before}
+                    if hang:
+                        problems.append(("teardown-hangs", f"event {i}: the teardown never comes back: {hang}; workers were {snapshot}"))
+                    elif clock.now - t_before > F.EXIT_GRACE_S * 1000:
+                        problems.append(("teardown-unbounded", f"event {i}: the teardown took {(clock.now - t_before) / 1000.0}s on the "
+                                                               f"executor's clock (joins: {joins}); workers were {snapshot}"))
+                elif hang:
+                    problems.append(("loop-hangs", f"event {i}: {hang}"))
                 terminal = [a for a in cur if a[0] == "ToCtl" and a[1] in ("CExit", "CFailure")]
                 if not was_term and dead:
-                    if not (E.terminating and terminal and not any(p is not None and p.is_alive() for p in children())):
-                        problems.append(("child-death-undetected",
+                    left = any(p is not None and p.is_alive() for p in children())
+                    if not (E.terminating and terminal and not left):
+                        problems.append(("child-death-undetected" if not (E.terminating and terminal) else "teardown-misses-child",
                                          f"event {i}: a child was dead before this loop iteration, afterwards terminating={E.terminating}, "
                                          f"reports={terminal}, alive={[p.is_alive() for p in children() if p is not None]}"))
                 if was_term and cur:
@@ -272,6 +492,16 @@ def drive_exec(case):
                 p = procs.get(WorkerId(host, f"w{e[1]}"))
                 if p is not None and p.alive:
                     p.stuck = True
+            elif e[0] == "wdeaf":
+                p = procs.get(WorkerId(host, f"w{e[1]}"))
+                if p is not None:
+                    p.deaf = True
+                    if p.alive:
+                        p.stuck = True
+            elif e[0] == "wbusy":
+                p = procs.get(WorkerId(host, f"w{e[1]}"))
+                if p is not None and p.alive:
+                    p.leave = max(p.leave, int(e[2]))
             elif e[0] == "shm":
                 shm.die({"term": 0, "kill": -9}.get(e[1], e[1]))
             elif e[0] == "ds":
@@ -280,21 +510,33 @@ def drive_exec(case):
         # a second terminate must be a no-op
         cur = []
         if E.terminating:
-            E.terminate()
+            try:
+                E.terminate()
+            except _Hang as h:
+                problems.append(("terminate-not-idempotent", f"second terminate blocks: {h}"))
             if cur:
                 problems.append(("terminate-not-idempotent", f"second terminate did {cur}"))
+            # whoever was asked and is about to leave may do so: the verdict is taken at the end of the same period
+            # the real-process stream grants (F.EXIT_GRACE_S after the teardown began)
+            if teardown is not None:
+                clock.now = max(clock.now, teardown["t0"] + int(F.EXIT_GRACE_S * 1000))
             if any(p is not None and p.is_alive() for p in children()):
-                problems.append(("teardown-misses-child", f"terminated executor has live children: "
-                                 f"{[(p.role, p.idx) for p in children() if p is not None and p.is_alive()]}"))
+                problems.append(("teardown-misses-child", f"{F.EXIT_GRACE_S}s after the teardown began the terminated executor still has live children: "
+                                 f"{[(p.role, p.idx) for p in children() if p is not None and p.is_alive()]} "
+                                 f"(workers at the teardown: {teardown and teardown['workers']}, calls: {teardown and teardown['calls']}, "
+                                 f"exceptions that escaped the loop: {crashes}, "
+                                 f"monotonic clock {case.get('mono0')} ms, wall clock {case.get('wall0')} ms)"))
         allacts = [a for o in obs for a in o]
         nterm = sum(1 for a in allacts if a[0] == "ToCtl" and a[1] in ("CExit", "CFailure"))
         if nterm != (1 if E.terminating else 0):
             problems.append(("terminal-report-count", f"{nterm} Exit/Failure reports, terminating={E.terminating}"))
     finally:
-        ex.callback, ex.shm_client, ex.logger.disabled = saved
+        for name, val in saved.items():
+            setattr(ex, name, val)
+        ex.logger.disabled = was_disabled
     fin = (E.terminating, [p is not None and p.is_alive() for p in procs.values()], shm.is_alive(), ds.is_alive(),
            sorted(int(d.output) for d in E.datasets))
-    return obs, fin, problems
+    return obs, fin, problems, teardown
 
 
 def act_term(a):
@@ -308,6 +550,8 @@ def act_term(a):
 
 
 def ev_term(e):
+    """the event as Net/Executor.v sees it; None = invisible to that model (a worker that is busy, but
+    for less than the grace period, is simply alive there)"""
     def m_term(m):
         k = m[0]
         return {"seq": lambda: f"MTaskSeq {m[1]}", "ack": lambda: f"MAck {m[1]}", "pub": lambda: f"MPublished {m[1]}",
@@ -317,8 +561,10 @@ def ev_term(e):
         return f"EvBatch {clist(e[1], m_term)} {cbool(e[2])}"
     if e[0] == "wdies":
         return f"EvWorkerDies {e[1]} {cZ(e[2])}"
-    if e[0] == "wstuck":
+    if e[0] in ("wstuck", "wdeaf"):
         return f"EvWorkerStuck {e[1]}"
+    if e[0] == "wbusy":
+        return f"EvWorkerStuck {e[1]}" if e[2] > GRACE_MS else None
     if e[0] == "shm":
         return "EvShmDies " + ("Term" if e[1] == "term" else "Kill" if e[1] == "kill" else f"(Code {cZ(e[1])})")
     if e[0] == "ds":
@@ -326,13 +572,40 @@ def ev_term(e):
     raise AssertionError(e)
 
 
-def exec_case_term(case, obs, fin):
+def tstat_term(t):
+    return {"notstarted": lambda: "TNotStarted", "exited": lambda: f"TExited {cZ(t[1])}", "leaves": lambda: f"TLeaves {cZ(t[1])}",
+            "never": lambda: "TNever"}[t[0]]()
+
+
+def tcall_term(c):
+    if c[0] == "kill":
+        return f"TKill {c[1]}"
+    if c[0] == "joindead":
+        return f"TJoinDead {c[1]}"
+    return f"TJoin {c[1]} {copt(c[2], cZ)}"
+
+
+def exec_case_term(case, obs, fin, teardown):
     if any(a[0] == "KillShm" or (a[0] in ("ToCtl", "ToWorker") and str(a[-1]).startswith("?")) for o in obs for a in o):
         return None
     term, walive, salive, dalive, dsets = fin
-    return (f"({case['n']}, {clist(case['ns'], str)}, {clist(case['evs'], ev_term)}, "
-            f"{clist(obs, lambda o: clist(o, act_term))}, "
-            f"({cbool(term)}, {clist(walive, cbool)}, {cbool(salive)}, {cbool(dalive)}, {clist(dsets, str)}))")
+    evs, eobs, index = [], [], {}
+    for i, (e, o) in enumerate(zip(case["evs"], obs)):
+        t = ev_term(e)
+        if t is None:
+            continue
+        index[i] = len(evs)
+        evs.append(t)
+        eobs.append(o)
+    if teardown is None:
+        td = "None"
+    else:
+        td = (f"(Some ({index[teardown['event']]}, {cZ(teardown['mono'])}, "
+              f"{clist(teardown['workers'], lambda p: f'({p[0]}, {tstat_term(p[1])})')}, {clist(teardown['calls'], tcall_term)}, "
+              f"{copt(teardown['elapsed'], cZ)}))")
+    return (f"({case['n']}, {clist(case['ns'], str)}, {clist(evs)}, "
+            f"{clist(eobs, lambda o: clist(o, act_term))}, "
+            f"({cbool(term)}, {clist(walive, cbool)}, {cbool(salive)}, {cbool(dalive)}, {clist(dsets, str)}), {td})")
 
 
 # ============================================================================ stream B: execute_sequence
@@ -603,6 +876,12 @@ CORE = [
 ]
 
 
+# faults under which run() must raise (a busy companion task is only added to those: without a failure a never-ending
+# task is no defect, the run legitimately does not end)
+BUSY_TASKFAILURE = [("raise", 0)]
+BUSY_EXECFAILURE = [("sigkill", 0), ("osexit", 1), ("sysexit", 0), ("kill_ds", 0), ("term_ds", 0), ("term_shm", 0)]
+
+
 def scenarios(ctx):
     rng = ctx.sub_rng("faults")
     out = []
@@ -619,6 +898,16 @@ def scenarios(ctx):
         site, point = rng.choice([("g", "before"), ("g", "between"), ("g", "after"), ("c0", "before"), ("s", "before")])
         out.append({"hosts": 1, "workers": 2, "shape": "", "s_sleep": 0.0,
                     "fault": {"kind": k, "code": rng.choice([0, 1, 3]), "site": site, "point": point}})
+        # the teardown meets a worker that will not read its shutdown request (inside a never-ending task, or a
+        # generator stuck between two outputs): once after a TaskFailure (controller asks the executor to shut down),
+        # once after a failure the executor finds itself
+        brng = ctx.sub_rng("faults-busy")
+        k1 = brng.choice(BUSY_TASKFAILURE)
+        k2 = brng.choice(BUSY_EXECFAILURE)
+        flavours = brng.sample(["sleep", "gen"], 2)
+        for (k, code), flavour in zip([k1, k2], flavours):
+            out.append({"hosts": 1, "workers": 2, "shape": brng.choice(["", "gout"]), "s_sleep": 0.0, "busy": flavour,
+                        "fault": {"kind": k, "code": code, "site": brng.choice(["s", "c0"]), "point": "before"}})
     else:
         for hosts, workers in [(1, 1), (1, 2), (2, 1), (2, 2)]:
             for kind, code in [("none", 0), ("raise", 0), ("sysexit", 0), ("sysexit", 3), ("osexit", 0), ("osexit", 1), ("sigkill", 0),
@@ -630,6 +919,12 @@ def scenarios(ctx):
                         continue
                     out.append({"hosts": hosts, "workers": workers, "shape": rng.choice(["", "gout"]), "s_sleep": rng.choice([0.0, 0.2]),
                                 "fault": {"kind": kind, "code": code, "site": site, "point": point}})
+        for hosts, workers in [(1, 2), (2, 2), (1, 3)]:
+            for j, (kind, code) in enumerate(BUSY_TASKFAILURE + BUSY_EXECFAILURE + [("kill_shm", 0)]):
+                for site in ("s", "c0"):
+                    out.append({"hosts": hosts, "workers": workers, "shape": rng.choice(["", "gout"]), "s_sleep": 0.0,
+                                "busy": ["sleep", "gen"][(j + (site == "s")) % 2],
+                                "fault": {"kind": kind, "code": code, "site": site, "point": "before"}})
     for i, sc in enumerate(out):
         sc["tag"] = f"v{os.getpid() % 1000:03d}{i:03d}"[:8]
         sc["seed"] = ctx.seed * 1000 + i
@@ -706,7 +1001,7 @@ FK = {"none": "FNone", "raise": "FRaise", "sysexit": "FWorkerExit", "osexit": "F
 
 
 def scenario_term(sc, o):
-    return (f"({FK[sc['fault']['kind']]}, ({cbool(o['outcome'] == 'raised')}, {min(int(o.get('procs_left') or 0), 99)}, "
+    return (f"({FK[sc['fault']['kind']]}, {cbool(o.get('busy_engaged'))}, ({cbool(o['outcome'] == 'raised')}, {min(int(o.get('procs_left') or 0), 99)}, "
             f"{min(int(o.get('shm_left') or 0), 99)}, {cbool(must_raise(sc))}))")
 
 
@@ -724,13 +1019,17 @@ def run_faults(ctx, res, scs, par):
             sc2 = dict(sc, tag=sc["tag"][:6] + "r")
             o2 = run_real(sc2)
             bad2 = judge(sc2, o2)
-            ctx.notes.append(f"scenario {sc['fault']} hosts={sc.get('hosts')} first gave {[s for s, _ in bad]}, serial re-run gave {[s for s, _ in bad2]}")
+            ctx.notes.append(f"scenario {sc['fault']} hosts={sc.get('hosts')} busy={sc.get('busy')} first gave {[s for s, _ in bad]} "
+                             f"({o.get('outcome')}, {str(o.get('detail') or o.get('driver_error') or '')[:160]}), serial re-run gave {[s for s, _ in bad2]}")
             o, bad = o2, bad2
         res.evaluations += 1
         counts["scenarios"] += 1
         f = sc["fault"]
-        key = f"{f['kind']}:{f.get('code', 0) if f['kind'] in ('sysexit', 'osexit') else ''}:{f.get('site', '')}:{f.get('point', '')}:h{sc.get('hosts')}w{sc.get('workers')}:{sc.get('shape')}"
+        key = (f"{f['kind']}:{f.get('code', 0) if f['kind'] in ('sysexit', 'osexit') else ''}:{f.get('site', '')}:{f.get('point', '')}"
+               f":h{sc.get('hosts')}w{sc.get('workers')}:{sc.get('shape')}:{sc.get('busy') if o.get('busy_engaged') else ''}")
         res.count("real:" + f["kind"])
+        if sc.get("busy"):
+            res.count("real:busy-worker-at-teardown:" + ("engaged" if o.get("busy_engaged") else "not-engaged"))
         if f["kind"] != "none":
             res.nontrivial_keys.add("real:" + key)
         if any(s == "inconclusive" for s, _ in bad):
@@ -749,7 +1048,7 @@ def run_faults(ctx, res, scs, par):
         meta.append((sc, o))
         if len(res.samples) < 5 and f["kind"] != "none":
             res.samples.append({"stream": "real", "scenario": {k: v for k, v in sc.items() if k not in ("tag", "seed")},
-                                "observation": {k: o.get(k) for k in ("outcome", "exc", "run_s", "exit_s", "procs_left", "shm_left")}})
+                                "observation": {k: o.get(k) for k in ("outcome", "exc", "run_s", "exit_s", "procs_left", "shm_left", "busy_engaged") if k in o}})
     res.extra["fault_enumeration"] = counts
     return terms, meta
 
@@ -757,17 +1056,23 @@ def run_faults(ctx, res, scs, par):
 # ============================================================================ run
 def run(ctx, res):
     res.rule = ("A: histories of 2..8 events (message batches of 0..4 messages over the 8 message classes, worker/shm/data-server deaths with "
-                "codes 0/1/3/-9/-15, stuck workers) on 1..3 workers; non-trivial = contains a fault or a failure message followed by a loop "
-                "iteration. B: sequences of 1..4 tasks (1..3 outputs; ok/raise/sys.exit at a chosen yield); non-trivial = some task fails. "
+                "codes 0/1/3/-9/-15, workers stuck / busy for 1 ms..1 h / unreachable, shm server dying under the shutdown request) on 1..4 "
+                "workers, clock epochs varied; a third of the histories end the executor while some worker will not leave at once; "
+                "non-trivial = contains a fault or a failure message followed by a loop iteration. B: sequences of 1..4 tasks (1..3 outputs; ok/raise/sys.exit at a chosen yield); non-trivial = some task fails. "
                 "C: 0..5 batches over 9 message classes on 1..3 hosts; non-trivial = contains an event or a shutdown reason. "
-                "D: real clusters with one injected fault; non-trivial = a fault was injected. distinct = distinct canonical case")
+                "D: real clusters with one injected fault, some with a companion task that never ends once the fault is armed (the teardown "
+                "meets a worker that does not read its shutdown request); non-trivial = a fault was injected. distinct = distinct canonical case")
     # ---- D first (it is the slow one): start it in a thread, do A-C meanwhile
     scs = scenarios(ctx)
-    par = ctx.n(3, 4)
+    scs.sort(key=lambda sc: 0 if sc.get("busy") else 1)      # the long ones (grace period) first
+    par = 4
     box = {}
+
+    t_start = time.time()
 
     def real():
         box["d"] = run_faults(ctx, res, scs, par)
+        box["d_s"] = round(time.time() - t_start, 1)
     import threading
     th = threading.Thread(target=real)
     th.start()
@@ -777,20 +1082,24 @@ def run(ctx, res):
     a_terms, a_meta = [], []
     for _ in range(ctx.n(500, 12000)):
         case = gen_exec_case(rng)
-        obs, fin, problems = drive_exec(case)
+        obs, fin, problems, teardown = drive_exec(case)
         res.evaluations += 1
         faults = [e for e in case["evs"] if e[0] != "batch" or any(m[0] in ("tfail", "xfail", "shutdown", "other") for m in e[1])]
         res.count("exec:" + ("fault" if faults else "plain"))
+        if teardown is not None:
+            live = [t[1][0] for t in teardown["workers"] if t[1][0] in ("leaves", "never")]
+            slow = [t for t in teardown["workers"] if t[1][0] == "never" or (t[1][0] == "leaves" and t[1][1] > 0)]
+            res.count("exec:teardown:" + ("worker-not-leaving-at-once" if slow else "workers-idle" if live else "no-live-worker"))
         if faults and case["evs"][-1][0] == "batch":
             res.nontrivial_keys.add("A" + json.dumps(case, sort_keys=True))
         for sig, what in problems:
             res.fail(sig, what, {"stream": "exec", "case": case})
-        t = exec_case_term(case, obs, fin)
+        t = exec_case_term(case, obs, fin, teardown)
         if t is None:
             res.disagree("executor made a call the model has no action for", {"stream": "exec", "case": case, "obs": obs})
             continue
         a_terms.append(t)
-        a_meta.append((case, obs, fin))
+        a_meta.append((case, obs, fin, teardown))
         if len(res.samples) < 2 and faults:
             res.samples.append({"stream": "exec", "case": case, "acts": obs, "final": fin})
     # ---- B
@@ -827,7 +1136,7 @@ def run(ctx, res):
         c_terms.append(bridge_case_term(case, obs))
         c_meta.append((case, obs))
 
-    for name, terms, meta, checker in [("exec", a_terms, a_meta, "check_exec"), ("seq", b_terms, b_meta, "check_seq"),
+    for name, terms, meta, checker in [("exec", a_terms, a_meta, "check_exec_t"), ("seq", b_terms, b_meta, "check_seq"),
                                        ("bridge", c_terms, c_meta, "check_bridge")]:
         results, logs = coq_results("C05", HEADER, terms, checker, tag=name)
         for r, m in zip(results, meta):
@@ -835,7 +1144,9 @@ def run(ctx, res):
             if r is not True:
                 res.disagree(f"{name}: model and implementation differ" + ("" if r is False else " (Coq could not evaluate the case)"),
                              {"stream": name, "case": m[0], "observed": m[1:], "log": logs[:1]})
+    box["abc_s"] = round(time.time() - t_start, 1)
     th.join()
+    res.extra["wall_seconds"] = {"in_process_streams_and_their_coq_runs": box["abc_s"], "real_process_stream": box.get("d_s")}
     d_terms, d_meta = box.get("d", ([], []))
     if d_terms:
         results, logs = coq_results("C05", HEADER, d_terms, "check_scenario", tag="real")
@@ -866,7 +1177,7 @@ def replay(ctx, stored):
         return {"fails": False, "note": "stored case names a broken proof/correspondence, not a failing input", "stream": fd.get("stream")}
     stream = c.get("stream")
     if stream == "exec":
-        _, _, problems = drive_exec(c["case"])
+        _, _, problems, _ = drive_exec(c["case"])
         return {"fails": bool(problems), "signature": problems[0][0] if problems else None, "what": problems[0][1] if problems else None}
     if stream == "seq":
         acts, code = drive_seq(c["case"])
